@@ -153,8 +153,17 @@ def render(items, end_label, decls, framing, refs):
     return text + "\n", words, cells, len(words) - 1
 
 
-def check_text(text, words, cells, max_pc):
+# a program that declares the generator's label / variable names and is rejected: a later load must not see anything of it
+REJECTED = ".data\nv0: .word 9\nv1: .word 8, 8\n.text\nL0: INC\nL1:\nL2: DEC\nLend:\nBRZ nowhere\n"
+
+
+def check_text(text, words, cells, max_pc, after_rejected=False):
     sim = ToySimulation()
+    if after_rejected:
+        try:
+            sim.load_program(REJECTED)
+        except Exception:  # noqa (it is meant to be rejected; C15 decides how)
+            pass
     try:
         with watchdog(10):
             sim.load_program(text)
@@ -176,7 +185,7 @@ def check_text(text, words, cells, max_pc):
     return None
 
 
-DECLS = [(), ((7,),), ((7, 0x00F, 3),), ((1, 2), (0xFFFF,)), ((3,), (4, 5, 6))]
+DECLS = [(), ((7,),), ((7, 0x00F, 3),), ((1, 2), (0xFFFF,)), ((3,), (4, 5, 6)), ((4, 0, 6),), ((0, 0, 1), (0,))]
 
 
 def asm_shard(shard):
@@ -208,9 +217,12 @@ def asm_shard(shard):
                         fwd = any((c.endswith("label")) for _pl, c in items) and end_label
                         if fwd:
                             p.counters["forward-reference-possible"] += 1
-                        d = check_text(text, words, cells, max_pc)
+                        after = (p.evaluations % 2 == 0)
+                        if after:
+                            p.counters["loaded-after-a-rejected-program"] += 1
+                        d = check_text(text, words, cells, max_pc, after)
                         if d:
-                            p.violation(dict(oracle="toy-assembler", field="layout"), dict(kind="toy-text", text=text, words=words, cells={str(k): v for k, v in cells.items()}, max_pc=max_pc),
+                            p.violation(dict(oracle="toy-assembler", field="layout"), dict(kind="toy-text", text=text, words=words, cells={str(k): v for k, v in cells.items()}, max_pc=max_pc, after=after),
                                         f"{text!r}: {d}", size=(length, len(text)))
     if first == 0:
         out = render([("inline", "a:BRZ:label"), ("alone", "a:ADD:var")], True, DECLS[2], "data-first", [1, 0])
@@ -293,7 +305,7 @@ def replay(case):
         d = example_check(case["i"])
         return [(dict(oracle="toy-assembler", field="example"), d)] if d else []
     else:
-        d = check_text(case["text"], case["words"], {int(a): v for a, v in case["cells"].items()}, case["max_pc"])
+        d = check_text(case["text"], case["words"], {int(a): v for a, v in case["cells"].items()}, case["max_pc"], case.get("after", False))
         return [(dict(oracle="toy-assembler", field="layout"), d)] if d else []
     return [(lst[0][1], lst[0][3]) for _k, (n, lst) in part.viol.items()]
 
@@ -302,8 +314,8 @@ def run(ctx):
     ctx.rule = ("Encoding: all 65 536 words decode to the instruction of opcode min(op,12) with the low 12 bits as address and re-encode to the same word "
                 "(0xC000|address above 12); every constructor x all 4096 addresses round-trips. Assembler: every source text of up to 2 (3) instruction "
                 "lines over {no-address instruction, address instruction with decimal / hex / label / variable operand} x label placement {none, stand-alone, "
-                "in-line} x optional end label x every rotation of reference targets (forward, backward, self, end) x data declarations with 1-3 values x "
-                "segment framing {none, .text first, .data first, .data last}; expected image computed from the abstract program: instruction i at address i, "
+                "in-line} x optional end label x every rotation of reference targets (forward, backward, self, end) x data declarations with 1-3 values (zeros included) x "
+                "segment framing {none, .text first, .data first, .data last}; every other text loaded into a simulation whose previous load (of a program declaring the same names) was rejected; expected image computed from the abstract program: instruction i at address i, "
                 "max_pc, data downward from 4095 in declaration order with elements ascending, every label / variable operand encoded as its address. The three "
                 "help-page examples are assembled, run and must end with the documented results. Non-trivial = text with a label or variable reference.")
     t0 = time.time()
@@ -324,4 +336,4 @@ def run(ctx):
         if d:
             part.violation(dict(oracle="toy-assembler", field="example"), dict(kind="example", i=i), d, size=(i,))
     ctx.space("help-page-examples", part, t0)
-    ctx.require("opcode-above-12", "inline-label", "data-before-text", "forward-reference-possible")
+    ctx.require("opcode-above-12", "inline-label", "data-before-text", "forward-reference-possible", "loaded-after-a-rejected-program")
